@@ -23,7 +23,7 @@ for d in $V/selftest/mutants/*/; do
   out=$("$V/bin/govc" check -prop "$prop" -tier quick -repo "$WT" -verif "$SV" -noreplay 2>&1); rc=$?
   (cd "$WT" && git apply -R "$d/patch.diff")
   n=$((n+1))
-  if [ $rc -eq 1 ] && echo "$out" | grep -q "failed obligation: .*$want"; then
+  if [ $rc -eq 1 ] && echo "$out" | grep "failed obligation" | grep -qF "$want"; then
     echo "SELFTEST $name: rejected as expected ($prop: $want)"
   else
     echo "SELFTEST $name: NOT rejected (rc=$rc, wanted $prop $want)"; echo "$out" | tail -5; fail=1
